@@ -10,6 +10,7 @@ handler, a sequence of external events (ExtEvent or a direct
 `blk.event()` call with any object as event type) and a follow-up event to every block.
 """
 import inspect
+import sys
 import itertools
 import re
 
@@ -21,7 +22,7 @@ from ..simrun import Sim
 ID = 'C11'
 RULE = ("hand-written seed circuits (self-loop, 2/3-cycles, diamond, every harmless outcome, early "
         "initialisation with a loop back, malformed event types) + random event graphs over 1..4 blocks "
-        "(probe blocks with scripted handlers a/b/need/ping, Input with/without initdef and allowed set, "
+        "(probe blocks with scripted handlers a/b/need/ping – a quarter of their sends inside try/except that swallows the exception –, Input with/without initdef and allowed set, "
         "Counter with/without modulo, OutputFunc with a returning/failing function and 0..2 on_success / 0..1 on_error "
         "events sent from inside its handler, a quarter of the first on_success events looping straight back), 0..2 on_output, 0..1 on_every_output and 0..2 explicitly sent "
         "events per block with random destination (self-loops, cycles, diamonds), event type (known, "
@@ -30,11 +31,8 @@ RULE = ("hand-written seed circuits (self-loop, 2/3-cycles, diamond, every harml
         "6..9 events per circuit or random sequences of length <= 4, then a follow-up event to every "
         "block; a case is distinct by its (lines, trace) hash and non-trivial when a handler was entered")
 ASSUMPTIONS = [
-    "handlers do not swallow exceptions of the events they send (the library blocks modelled here do not; "
-    "OutputFunc catches only the exceptions of its function, the on_success events are sent after the try). "
-    "Observed on the unchanged code and NOT judged by this check: when a user handler between the two "
-    "deliveries catches the EdzedCircuitError of a refused recursive event, nobody calls abort() and the "
-    "simulation goes on",
+    "scripted handlers either propagate the exceptions of the events they send or swallow all of them "
+    "(try/except Exception: pass around one send); OutputFunc catches only the exceptions of its function",
     "values are ints/bools, so that Counter arithmetic never sees a non-number",
     "FSM chained transitions (the FSM-internal window, `_fsm_event_active/_next_event`) and Repeat are not "
     "part of this model; the `_enable_event` mechanism itself is exercised through early initialisation",
@@ -43,6 +41,8 @@ EXHAUSTIVE = {'quick': False, 'thorough': False}
 
 LOG = []        # enter/exit log shared by all blocks of the running scenario
 REFUSED = []    # blocks that refused a recursive event, in order
+SWALLOWED = []  # (block, exception kind): a probe handler caught the exception of an event it sent
+EXC_EXITS = []  # exception kinds that left an event handler
 BUSY_OK = []    # blocks whose event() returned normally although their handler was running (probe depth > 0)
 
 
@@ -82,6 +82,8 @@ class _Traced:
     def _c11_exit(self, ok):
         self._c11_depth -= 1
         LOG.append(f"-{self.name}" + ('' if ok else '!'))
+        if not ok:
+            EXC_EXITS.append(kind_of(sys.exc_info()[1]))
 
 
 class PB(_Traced, edzed.SBlock):
@@ -102,6 +104,15 @@ class PB(_Traced, edzed.SBlock):
                     ev.send(self)
                 else:
                     ev.send(self, value=act[2])
+            elif act[0] == 't':
+                ev = self.extra[act[1]]
+                try:
+                    if act[2] is None:
+                        ev.send(self)
+                    else:
+                        ev.send(self, value=act[2])
+                except Exception as err:    # pylint: disable=broad-except
+                    SWALLOWED.append((self.name, kind_of(err)))
             elif act[0] == 'r':
                 raise RuntimeError('scripted failure')
             elif act[0] == 'e':
@@ -226,8 +237,8 @@ def enc_etype(et):
 def enc_act(a):
     if a[0] == 'o':
         return 'o' + enc(a[1])
-    if a[0] == 's':
-        return f's{a[1]}:' + ('-' if a[2] is None else enc(a[2]))
+    if a[0] in 'st':
+        return f'{a[0]}{a[1]}:' + ('-' if a[2] is None else enc(a[2]))
     if a[0] == 'r':
         return 'r'
     return f'e{a[1]}:{enc_etype(a[2])}'
@@ -330,6 +341,8 @@ def run_impl(scn):
     del LOG[:]
     del REFUSED[:]
     del BUSY_OK[:]
+    del SWALLOWED[:]
+    del EXC_EXITS[:]
 
     def build_circuit(circuit):
         ctx['blocks'] = build(scn)
@@ -346,7 +359,11 @@ def run_impl(scn):
         trace.append(f"{res} | {','.join(items) if items else '-'} | {refused} | {state}")
         busy_ok = list(BUSY_OK)
         del BUSY_OK[:]
-        steps.append({'op': op, 'res': res, 'items': items, 'refused': refused, 'busy_ok': busy_ok,
+        swallowed = list(SWALLOWED)
+        del SWALLOWED[:]
+        exc_exits = list(EXC_EXITS)
+        del EXC_EXITS[:]
+        steps.append({'op': op, 'res': res, 'items': items, 'refused': refused, 'busy_ok': busy_ok, 'swallowed': swallowed, 'exc_exits': exc_exits,
                       'active': [b.name for b in blocks if b._event_active],
                       'error': kind_of(sim.circuit.error),
                       'maxdepth': max((getattr(b, '_c11_max', 0) for b in blocks), default=0)})
@@ -422,21 +439,22 @@ def oracle(scn, res):
             out.append({'clause': 'follow_up_accepted',
                         'what': f"step {i}: block b{op['d']} refuses a new event: {s['res']}"})
         # 4. the simulation is stopped exactly when documented: an exception other than
-        #    EdzedUnknownEvent left an event handler (this includes a refused recursive event);
-        #    a failed start-up
+        #    EdzedUnknownEvent left an event handler (whether or not a caller catches it afterwards);
+        #    an event was refused by a busy block (whoever catches that exception); a failed start-up
         failed = s['res'].startswith('exc')
+        expect = any(k != 'UnknownEvent' for k in s['exc_exits']) or s['refused'] != '-'
         if op['kind'] == 'init':
-            expect = failed
+            expect = expect or failed
         else:
-            left_handler = any(it.startswith('-') and it.endswith('!') for it in s['items'])
-            expect = failed and left_handler and s['res'] != 'exc UnknownEvent'
-            if s['refused'] != '-' and not failed:
+            if s['refused'] != '-' and not failed and not s['swallowed']:
                 out.append({'clause': 'recursion_is_refused_and_aborts',
                             'what': f"step {i} {op}: recursive event refused ({s['refused']}) but the sender "
                                     f"of the outer event got no exception: {s['res']}"})
             if s['refused'] != '-' and not (err_before != '-' or s['error'] != '-'):
                 out.append({'clause': 'recursion_is_refused_and_aborts',
-                            'what': f"step {i} {op}: recursive event refused ({s['refused']}) but the simulation goes on"})
+                            'what': f"step {i} {op}: recursive event refused ({s['refused']}) but the simulation goes on"
+                                    + (f"; the exception was caught by {s['swallowed']}" if s['swallowed'] else ''),
+                            'sig': {'swallowed': bool(s['swallowed'])}})
         if err_before == '-':
             if expect and s['error'] == '-':
                 out.append({'clause': 'error_in_handler_aborts',
@@ -485,6 +503,18 @@ def seeds():
     yield {'blocks': [outf(['c', 3]), outf('f'), cnt()],
            'edges': [[0, 's', 1, N('put'), []], [1, 'r', 2, N('inc'), []], [0, 's', 2, ['c', N('inc'), ['0']], ['v']]],
            'ops': [E(0, 'put', {'value': 0}), E(0, 'put'), E(1, 'put', {'value': 1})]}
+    # a handler that catches the exceptions of the events it sends: A -> B(try/except) -> A, and a
+    # self-loop inside try/except: the refusal must stop the simulation although nobody sees the exception
+    yield {'blocks': [probe(a=[['s', 0, None]]), probe(a=[['t', 0, None], ['o', 4]])],
+           'edges': [[0, 'x', 1, N('a'), []], [1, 'x', 0, N('a'), []]], 'ops': [E(0, 'a'), E(1, 'a')]}
+    yield {'blocks': [probe(a=[['t', 0, 1], ['t', 1, 2]]), inp()],
+           'edges': [[0, 'x', 0, N('b'), []], [0, 'x', 1, N('put'), ['d']]], 'ops': [E(0, 'a')]}
+    # swallowed harmless errors (unknown event, call that does not bind) and a swallowed handler error
+    yield {'blocks': [probe(a=[['t', 0, None], ['t', 1, None], ['t', 2, 0]], need=[['r']]), cnt()],
+           'edges': [[0, 'x', 1, N('zz'), []], [0, 'x', 1, N('put'), []], [0, 'x', 0, N('zz'), []]],
+           'ops': [E(0, 'a'), E(1, 'inc')]}
+    yield {'blocks': [probe(a=[['t', 0, 1]]), probe(need=[['r']])], 'edges': [[0, 'x', 1, N('need'), []]],
+           'ops': [E(0, 'a'), E(0, 'a')]}
     # self-loop through on_output
     yield {'blocks': [probe(a=[['o', 1]])], 'edges': [[0, 'o', 0, N('a'), []]], 'ops': [E(0, 'a'), E(0, 'a')]}
     # 2-cycle and 3-cycle through explicitly sent events
@@ -596,7 +626,8 @@ def rand_circuit(rng):
                     if r < 0.45:
                         acts.append(['o', rng.choice(VALUES)])
                     elif r < 0.85 and nextra[i]:
-                        acts.append(['s', rng.randrange(nextra[i]), rng.choice(VALUES + [None, None])])
+                        acts.append(['s' if rng.random() < 0.75 else 't', rng.randrange(nextra[i]),
+                                     rng.choice(VALUES + [None, None])])
                     elif r < 0.90:
                         acts.append(['r'])
                     elif r < 0.96:
